@@ -8,6 +8,7 @@ import (
 	"testing"
 
 	dbm "github.com/cosmos/cosmos-db"
+	"pgregory.net/rapid"
 
 	"cosmossdk.io/log/v2"
 
@@ -181,35 +182,103 @@ func FuzzC18Proof(f *testing.F) {
 	})
 }
 
-// TestC18FuzzSeeds runs the fuzz target's seed corpus and a byte-flip sweep over every seed
-// proof in the quick tier (the fuzzer itself only runs in the thorough tier).
-func TestC18FuzzSeeds(t *testing.T) {
+// TestC18FuzzSeeds: the fuzz target's oracle driven by rapid in the quick tier (the native fuzzer
+// only runs in the thorough tier): a genuine seed proof with 0..3 byte edits of the wire bytes
+// and optional edits of store / key / value.
+type c18Flip struct {
+	Seed  int
+	Edits []c18Edit
+	Store string // "" = the seed's store
+	KeyX  []byte // xor-ed over the key (shorter of the two lengths)
+	ValX  []byte
+}
+
+type c18Edit struct {
+	Pos int
+	X   byte
+	Op  string // flip | drop | dup
+}
+
+func genC18Flip(t *rapid.T) c18Flip {
+	c := c18Flip{Seed: rapid.IntRange(0, 1<<10).Draw(t, "seed")}
+	for k, n := 0, rapid.IntRange(0, 3).Draw(t, "edits"); k < n; k++ {
+		c.Edits = append(c.Edits, c18Edit{rapid.IntRange(0, 1<<14).Draw(t, "pos"), byte(rapid.IntRange(1, 255).Draw(t, "x")), rapid.SampledFrom([]string{"flip", "flip", "flip", "drop", "dup"}).Draw(t, "op")})
+	}
+	if rapid.IntRange(0, 5).Draw(t, "otherstore") == 0 {
+		c.Store = rapid.SampledFrom([]string{"gmp", "ibc", "acc", "nope"}).Draw(t, "store")
+	}
+	if rapid.IntRange(0, 3).Draw(t, "keyedit") == 0 {
+		c.KeyX = genBytes(t, 1, 3, "keyx")
+	}
+	if rapid.IntRange(0, 3).Draw(t, "valedit") == 0 {
+		c.ValX = genBytes(t, 1, 3, "valx")
+	}
+	return c
+}
+
+func runC18Flip(t rapid.TB, c c18Flip, rec *vx.Case) {
 	fs, err := getFuzzStore()
 	if err != nil {
-		t.Fatalf("harness: %v", err)
+		vx.Harnessf("deterministic store: %v", err)
 	}
-	accepted, flips := 0, 0
-	for _, s := range fs.seeds {
-		msg, mem, non := fuzzOracle(fs, s.proof, s.store, s.key, s.value)
-		if msg != "" {
-			t.Fatal(msg)
+	s := fs.seeds[c.Seed%len(fs.seeds)]
+	proof := append([]byte(nil), s.proof...)
+	for _, e := range c.Edits {
+		if len(proof) == 0 {
+			break
 		}
-		if mem || non {
-			accepted++
-		}
-		for i := range s.proof {
-			for _, x := range []byte{0x01, 0x80} {
-				p := append([]byte(nil), s.proof...)
-				p[i] ^= x
-				flips++
-				if msg, _, _ := fuzzOracle(fs, p, s.store, s.key, s.value); msg != "" {
-					t.Fatal(msg)
-				}
-			}
+		i := e.Pos % len(proof)
+		switch e.Op {
+		case "drop":
+			proof = append(proof[:i:i], proof[i+1:]...)
+		case "dup":
+			proof = append(proof[:i+1:i+1], proof[i:]...)
+		default:
+			proof[i] ^= e.X
 		}
 	}
-	if accepted != len(fs.seeds) {
-		t.Fatalf("harness: only %d of %d seeds verify", accepted, len(fs.seeds))
+	store := s.store
+	if c.Store != "" {
+		store = c.Store
 	}
-	t.Logf("seeds=%d byte-flips=%d", len(fs.seeds), flips)
+	key, val := append([]byte(nil), s.key...), append([]byte(nil), s.value...)
+	for i := 0; i < len(c.KeyX) && i < len(key); i++ {
+		key[len(key)-1-i] ^= c.KeyX[i]
+	}
+	for i := 0; i < len(c.ValX) && i < len(val); i++ {
+		val[i] ^= c.ValX[i]
+	}
+	msg, mem, non := fuzzOracle(fs, proof, store, key, val)
+	if msg != "" {
+		t.Fatal(msg)
+	}
+	edited := !bytes.Equal(proof, s.proof)
+	pristine := !edited && store == s.store && bytes.Equal(key, s.key) && bytes.Equal(val, s.value)
+	if pristine && ((s.value != nil) != mem || (s.value == nil) != non) {
+		vx.Violatef(t, rec, c18, "true-statement-rejected", "genuine seed proof for %s/%q does not verify (member=%v nonmember=%v)", s.store, s.key, mem, non)
+	}
+	switch {
+	case pristine:
+		rec.Class("pristine")
+	case mem || non:
+		rec.Class("edited-accepted-true-statement")
+	default:
+		rec.Class("edited-rejected")
+	}
+	if s.value == nil {
+		rec.Class("seed-nonmembership")
+	} else {
+		rec.Class("seed-membership")
+	}
+	rec.NonTrivialIf(edited)
+}
+
+func TestC18FuzzSeeds(t *testing.T) {
+	vx.Check(t, vx.Prop[c18Flip]{
+		ID:        c18,
+		Rule:      "seed corpus of FuzzC18Proof (genuine membership / non-membership proofs from a deterministic 4-store rootmulti) with 0..3 byte flips/drops/duplications of the proof's wire bytes and optional edits of store name, key and value; oracle: verifies => the model map agrees; non-trivial = proof bytes edited",
+		MinNTFrac: 0.5,
+		Gen:       genC18Flip,
+		Run:       runC18Flip,
+	})
 }
